@@ -525,3 +525,13 @@ def uninstall():
     for name, cls in _saved.items():
         setattr(ruz, name, cls)
     _NET = None
+    # radical.pilot keeps every component of the process in a module level
+    # list (for its at-fork hook; a pilot process has a handful).  A shard
+    # builds tens of thousands of them: without this the finished histories
+    # (components, sessions, transport logs) stay reachable forever and a
+    # thorough shard grows to several GB.
+    try:
+        import radical.pilot.utils.component as m_comp
+        del m_comp._components[:]
+    except Exception:
+        pass
